@@ -63,6 +63,7 @@ DocsWithTables ==
                LET l == LocsOf(DocSeq[d])[i] IN
                [loc |-> l, path |-> NormPath(l), ptr |-> PrintPtr(TokensOf(l)),
                 replaced |-> SetAtLoc(DocSeq[d], l, NewVal),
+                nulled |-> SetAtLoc(DocSeq[d], l, Null),
                 removed |-> IF l = <<>> THEN Null ELSE RemoveAtLoc(DocSeq[d], l)]]]]
 DocsPlain == [d \in 1..NDocs |-> [doc |-> DocSeq[d], nodes |-> <<>>]]
 
